@@ -114,7 +114,7 @@ Lemma flush_cases tok x :
 Proof.
   unfold flush. destruct (batch x) as [|b l] eqn:E; auto.
   destruct (match tok with None => true | Some t => t =? btoken x end); auto.
-  right. rewrite fold_apply_batch, fold_apply_log, fold_apply_applied. cbn. auto.
+  right. cbn [set_fault batch log applied]. rewrite fold_apply_batch, fold_apply_log, fold_apply_applied. cbn. auto.
 Qed.
 
 Lemma flush_dext tok x : dext [] x (flush tok x).
@@ -134,13 +134,13 @@ Qed.
 
 Lemma flush_none_batch x : batch (flush None x) = [].
 Proof.
-  unfold flush. destruct (batch x) as [|b l] eqn:E; auto. rewrite fold_apply_batch. reflexivity.
+  unfold flush. destruct (batch x) as [|b l] eqn:E; auto. cbn [set_fault batch]. rewrite fold_apply_batch. reflexivity.
 Qed.
 
 Lemma add_item_dext c x b : dext [b] x (add_item c x b).
 Proof.
   unfold add_item.
-  set (x1 := mkDat (batch x ++ [b]) _ _ _ _ _ _ _ _ _).
+  set (x1 := mkDat (batch x ++ [b]) _ _ _ _ _ _ _ _ _ _).
   assert (H1 : dext [b] x x1).
   { exists []. split; [reflexivity|]. split; [intros e []|]. split; [|split].
     - intros b' H. cbn in H. apply in_app_or in H. exact H.
@@ -150,23 +150,28 @@ Proof.
   replace [b] with ([b] ++ []) by apply app_nil_r. eapply dext_trans; [exact H1|apply flush_dext].
 Qed.
 
-Lemma fold_add_dext c o (fired : list (N * N)) x :
-  exists O, dext O x (fold_left (fun y tk => add_item c y (BTm o (snd tk) (fst tk))) fired x)
-            /\ forall b, In b O -> exists k ts, b = BTm o k ts.
+Lemma fire_all_dext c o (fired : list (N * N)) x :
+  exists O, dext O x (fire_all c o fired x) /\ forall b, In b O -> exists k ts, b = BTm o k ts.
 Proof.
-  revert x; induction fired as [|tk fired IH]; intros x; cbn.
+  revert x; induction fired as [|tk fired IH]; intros x; cbn [fire_all].
   - exists []. split; [apply dext_refl|]. intros b [].
-  - destruct (IH (add_item c x (BTm o (snd tk) (fst tk)))) as (O & HO & HB).
-    exists ([BTm o (snd tk) (fst tk)] ++ O). split.
-    + eapply dext_trans; [apply add_item_dext|exact HO].
-    + intros b [<-|H]; eauto.
+  - set (x' := add_item c x (BTm o (snd tk) (fst tk))).
+    assert (H1 : dext [BTm o (snd tk) (fst tk)] x x') by apply add_item_dext.
+    destruct (errored x x').
+    + exists ([BTm o (snd tk) (fst tk)] ++ []). split.
+      * eapply dext_trans; [exact H1|]. apply dext_same; reflexivity.
+      * intros b [<-|[]]; eauto.
+    + destruct (IH x') as (O & HO & HB).
+      exists ([BTm o (snd tk) (fst tk)] ++ O). split.
+      * eapply dext_trans; [exact H1|exact HO].
+      * intros b [<-|H]; eauto.
 Qed.
 
 Lemma handle_wm_dext c x o t :
   exists O, dext O x (handle_wm c x o t) /\ forall b, In b O -> exists k ts, b = BTm o k ts.
 Proof.
   unfold handle_wm. destruct (tsplit _ _) as [fired rest].
-  set (x1 := mkDat _ _ _ _ _ _ _ _ _ _).
-  destruct (fold_add_dext c o fired x1) as (O & HO & HB).
+  set (x1 := mkDat _ _ _ _ _ _ _ _ _ _ _).
+  destruct (fire_all_dext c o fired x1) as (O & HO & HB).
   exists O. split; auto.
 Qed.
